@@ -220,7 +220,12 @@ impl Subject for ExecSubject {
             out.extend_from_slice(&(k.len() as u32).to_le_bytes());
             out.extend_from_slice(k);
             out.extend_from_slice(&(v.len() as u32).to_le_bytes());
-            out.extend_from_slice(v);
+            if v.len() > 65_536 {
+                // a constant multi-megabyte value (an uploaded WASM module): its length and head identify it
+                out.extend_from_slice(&v[..64]);
+            } else {
+                out.extend_from_slice(v);
+            }
         }
         // model parts that are not a function of the dump
         for id in &w.model.ever_created {
